@@ -12,7 +12,7 @@ from hypothesis import strategies as st
 from .. import gens, refs
 from ..runner import Sub, HarnessError
 from . import probes
-from .common import L, Checker, arr
+from .common import fresh_str, L, Checker, arr
 
 PROPERTY_ID = "C15"
 RULE = ("spec table over spatialmath.base.__all__ and the class constructors/methods with a vector, angle, unit or order "
@@ -21,7 +21,7 @@ RULE = ("spec table over spatialmath.base.__all__ and the class constructors/met
         "raise; (c) separate-scalar and packed-vector call forms are equal; (d) f(a,'deg') = f(a*pi/180) to 1e-9 for accepted "
         "and returned angles; (e) unknown order names and unknown input units raise. Non-trivial: form not in {list, 1-D array}, "
         "or wrong length, or deg, or non-default order.")
-RULE = RULE + probes.RULE_TEXT + (probes.AUG_TEXT if PROPERTY_ID in probes.AUG_PROPS else "") + probes.VARIANT_TEXT
+RULE = RULE + probes.RULE_TEXT + (probes.AUG_TEXT if PROPERTY_ID in probes.AUG_PROPS else "") + probes.VARIANT_TEXT + probes.OWN_TEXT
 ASSUMPTIONS = ["functions where a 2-D array is a documented point set (e2h, h2e, homtrans, getvector without dim) are only given list/tuple/1-D",
                "functions documented to take ndarray(n) only (isunitvec, iszerovec, Ab2M) and matrix-only / plotting / printing functions are in the exclusion list, counted in evidence",
                "results are compared by value and shape (array_equal); containers mirrored by the converters (getvector(out='sequence'), getunit) are compared by value"]
@@ -327,6 +327,26 @@ def _scalartype(case):
     return c.out
 
 
+def gen_thetalen(tier):
+    for nt in (2, 3):
+        for na in (1, 2, 3, 4, 6):
+            if na != nt:
+                for unit in ("rad", "deg"):
+                    for form in ("list", "tuple", "array"):
+                        yield {"kind": "thetalen", "nt": nt, "na": na, "unit": unit, "form": form}
+
+
+def _thetalen(case):
+    """a multi-valued twist takes one angle per twist: a vector of any other length is rejected, not truncated or padded"""
+    c = Checker("thetalen", nt=case["nt"], na=case["na"], unit=case["unit"], form=case["form"])
+    tw = [L.Twist3.Revolute([1, 0.5, 0.2], [1, 2, 3]), L.Twist3.Revolute([0, 0, 1], [1, 0, 0]), L.Twist3.Revolute([1, 0, 0], [0, 1, 0])][:case["nt"]]
+    M = L.Twist3(tw)
+    ang = [10.0 + 7 * k for k in range(case["na"])]
+    arg = list(ang) if case["form"] == "list" else tuple(ang) if case["form"] == "tuple" else np.array(ang)
+    c.must_raise("Twist3[M].exp/wrong_length", M.exp, arg, fresh_str(case["unit"]))
+    return c.out
+
+
 def gen_options(tier):
     for name in ORDER_FUNCS:
         for o in BAD_ORDERS:
@@ -342,7 +362,20 @@ def gen_options(tier):
 
 def s_packed():
     return st.fixed_dictionaries({"kind": st.just("packed"), "name": st.sampled_from(["transl", "transl2", "rpy2r", "rpy2tr", "eul2r", "eul2tr", "SE3", "SE2", "SE2xy"]),
-                                  "v": _vals(3), "ints": st.booleans()})
+                                  "v": _vals(3), "ints": st.booleans(),
+                                  # components forced to exactly zero (0 is falsy but it is a given value, not a missing one)
+                                  "zeros": st.sampled_from([None, None, None, [1, 0, 0], [0, 1, 0], [0, 0, 1], [1, 1, 0], [0, 1, 1], [1, 0, 1], [1, 1, 1]]),
+                                  # numeric type carrying the separate scalars
+                                  "stype": st.sampled_from([None, None, "np.float64", "np.float32", "np.int64", "np.int32", "np.int16", "np.int8", "np.uint8"])})
+
+
+def gen_packed(tier):
+    for name in ["transl", "transl2", "rpy2r", "rpy2tr", "eul2r", "eul2tr", "SE3", "SE2", "SE2xy"]:
+        for zeros in ([1, 0, 0], [0, 1, 0], [0, 0, 1], [1, 1, 0], [0, 1, 1], [1, 0, 1], [1, 1, 1]):
+            for ints in (False, True):
+                yield {"kind": "packed", "name": name, "v": [3.0, -2.0, 1.0], "ints": ints, "zeros": zeros, "stype": None}
+        for stype in ("np.float64", "np.float32", "np.int64", "np.int32", "np.int16", "np.int8", "np.uint8"):
+            yield {"kind": "packed", "name": name, "v": [3.0, 2.0, 1.0], "ints": True, "zeros": None, "stype": stype}
 
 
 # --------------------------------------------------------------------------- #
@@ -398,9 +431,9 @@ def _args(sp, case):
 
 
 def check_case(case):
-    if case.get("kind") in ("hist", "aug", "variant"):
+    if case.get("kind") in ("hist", "aug", "variant", "own"):
         return probes.run(case, PROPERTY_ID)
-    return {"form": _form, "dtype": _dtype, "callform": _callform, "wronglen": _wronglen, "unit": _unit, "scalartype": _scalartype, "badorder": _badorder, "goodorder": _goodorder, "badunit": _badunit,
+    return {"form": _form, "dtype": _dtype, "callform": _callform, "thetalen": _thetalen, "wronglen": _wronglen, "unit": _unit, "scalartype": _scalartype, "badorder": _badorder, "goodorder": _goodorder, "badunit": _badunit,
             "packed": _packed}[case["kind"]](case)
 
 
@@ -517,6 +550,7 @@ def _wronglen(case):
 def _unit_call(name, a, axis, order, unit):
     """call `name` with angles a (already in `unit`)"""
     b = L.base
+    unit, order = fresh_str(unit), fresh_str(order)        # option strings that are not the interned literals
     k3 = list(a)
     R = refs.rotz(0.3) @ refs.roty(-0.4) @ refs.rotx(0.5)
     T2 = refs.rt(refs.rot2(0.7), [1.0, 2.0])
@@ -595,8 +629,8 @@ def _unit(case):
             from .c05_angles import rpy_ref
             R = refs.polish(rpy_ref(a[0], pitch, a[2], case["order"]))
         T2 = refs.rt(refs.rot2(a[0]), [1.0, 2.0])
-        ok1, r = c.lib(name + "/rad", RETURNING[name], R, T2, "rad", case["order"])
-        ok2, d = c.lib(name + "/deg", RETURNING[name], R, T2, "deg", case["order"])
+        ok1, r = c.lib(name + "/rad", RETURNING[name], R, T2, fresh_str("rad"), fresh_str(case["order"]))
+        ok2, d = c.lib(name + "/deg", RETURNING[name], R, T2, fresh_str("deg"), fresh_str(case["order"]))
         if ok1 and ok2:
             c.eq(name + "/deg=rad*180/pi", d, np.asarray(r, dtype=float) * 180.0 / PI, 1e-9, 180.0)
         return c.out
@@ -724,18 +758,29 @@ def _packed(case):
     v = [float(round(x)) for x in case["v"]] if case["ints"] else list(case["v"])
     if case["ints"]:
         v = [int(x) for x in v]
+    if case.get("zeros"):
+        v = [(0 if case["ints"] else 0.0) if z else x for x, z in zip(v, case["zeros"])]
+    vp = list(v)                       # the packed vector keeps plain Python numbers
+    if case.get("stype"):
+        f = getattr(np, case["stype"][3:])
+        if case["stype"] in ("np.float64", "np.float32"):
+            v = [f(float(np.float32(x))) for x in v]
+            vp = [float(x) for x in v]
+        else:
+            v = [f(abs(int(round(x))) if "uint" in case["stype"] else int(round(x))) for x in v]
+            vp = [int(x) for x in v]
     name = case["name"]
-    c = Checker("packed", name=name, ints=case["ints"])
+    c = Checker("packed", name=name, ints=case["ints"], zeros=str(case.get("zeros")), stype=case.get("stype"))
     pairs = {
-        "transl": (lambda: b.transl(v[0], v[1], v[2]), lambda: b.transl(v)),
-        "transl2": (lambda: b.transl2(v[0], v[1]), lambda: b.transl2(v[:2])),
-        "rpy2r": (lambda: b.rpy2r(v[0], v[1], v[2]), lambda: b.rpy2r(v)),
-        "rpy2tr": (lambda: b.rpy2tr(v[0], v[1], v[2]), lambda: b.rpy2tr(v)),
-        "eul2r": (lambda: b.eul2r(v[0], v[1], v[2]), lambda: b.eul2r(v)),
-        "eul2tr": (lambda: b.eul2tr(v[0], v[1], v[2]), lambda: b.eul2tr(v)),
-        "SE3": (lambda: L.SE3(v[0], v[1], v[2]).A, lambda: L.SE3(v).A),
-        "SE2": (lambda: L.SE2(v[0], v[1], v[2]).A, lambda: L.SE2(v).A),
-        "SE2xy": (lambda: L.SE2(v[0], v[1]).A, lambda: L.SE2(v[:2]).A),
+        "transl": (lambda: b.transl(v[0], v[1], v[2]), lambda: b.transl(vp)),
+        "transl2": (lambda: b.transl2(v[0], v[1]), lambda: b.transl2(vp[:2])),
+        "rpy2r": (lambda: b.rpy2r(v[0], v[1], v[2]), lambda: b.rpy2r(vp)),
+        "rpy2tr": (lambda: b.rpy2tr(v[0], v[1], v[2]), lambda: b.rpy2tr(vp)),
+        "eul2r": (lambda: b.eul2r(v[0], v[1], v[2]), lambda: b.eul2r(vp)),
+        "eul2tr": (lambda: b.eul2tr(v[0], v[1], v[2]), lambda: b.eul2tr(vp)),
+        "SE3": (lambda: L.SE3(v[0], v[1], v[2]).A, lambda: L.SE3(vp).A),
+        "SE2": (lambda: L.SE2(v[0], v[1], v[2]).A, lambda: L.SE2(vp).A),
+        "SE2xy": (lambda: L.SE2(v[0], v[1]).A, lambda: L.SE2(vp[:2]).A),
     }
     f1, f2 = pairs[name]
     ok1, r1 = c.lib(name + "/scalars", f1)
@@ -746,7 +791,7 @@ def _packed(case):
 
 
 def classify(case):
-    if case.get("kind") in ("hist", "aug", "variant"):
+    if case.get("kind") in ("hist", "aug", "variant", "own"):
         return probes.classify(case)
     k = case["kind"]
     lab = {"kind:" + k: True}
@@ -778,11 +823,13 @@ def subchecks(tier):
         Sub("callform_values", strategy=s_callform(), n=(200, 4000), shards=(2, 8)),
         Sub("dtype_values", strategy=s_dtype(), n=(300, 6000), shards=(4, 16)),
         Sub("wronglen", gen=gen_wronglen, shards=(8, 16)),
+        Sub("theta_lengths", gen=gen_thetalen, shards=(1, 2)),
         Sub("options", gen=gen_options, shards=(2, 4)),
         Sub("form_values", strategy=s_form(), n=(800, 10000), shards=(8, 16)),
         Sub("unit", strategy=s_unit(), n=(800, 8000), shards=(8, 16)),
         Sub("scalartypes", gen=gen_scalartypes, shards=(2, 4)),
         Sub("scalartype", strategy=s_scalartype(), n=(500, 4000), shards=(4, 8)),
+        Sub("packed_cells", gen=gen_packed, shards=(2, 4)),
         Sub("packed", strategy=s_packed(), n=(500, 3000), shards=(4, 8)),
         *probes.subs(PROPERTY_ID),
     ]
